@@ -884,12 +884,25 @@ impl DcpsDomainParticipant {
                                 .any(|n| regex.is_match(n))
                         });
 
+                    // An empty sequence of names is the default partition ""
+                    let is_default_partition_matched = (discovered_reader_data
+                        .dds_subscription_data
+                        .partition
+                        .name
+                        .is_empty()
+                        && matches_default_partition(&publisher.qos.partition.name))
+                        || (publisher.qos.partition.name.is_empty()
+                            && matches_default_partition(
+                                &discovered_reader_data.dds_subscription_data.partition.name,
+                            ));
+
                     let is_partition_matched =
                         discovered_reader_data.dds_subscription_data.partition
                             == publisher.qos.partition
                             || is_any_name_matched
                             || is_any_received_regex_matched_with_partition_qos
-                            || is_any_local_regex_matched_with_received_partition_qos;
+                            || is_any_local_regex_matched_with_received_partition_qos
+                            || is_default_partition_matched;
                     if is_partition_matched {
                         let publisher_qos = publisher.qos.clone();
 
@@ -1466,12 +1479,25 @@ impl DcpsDomainParticipant {
                                 .any(|n| regex.is_match(n))
                         });
 
+                    // An empty sequence of names is the default partition ""
+                    let is_default_partition_matched = (discovered_writer_data
+                        .dds_publication_data
+                        .partition
+                        .name
+                        .is_empty()
+                        && matches_default_partition(&subscriber_qos.partition.name))
+                        || (subscriber_qos.partition.name.is_empty()
+                            && matches_default_partition(
+                                &discovered_writer_data.dds_publication_data.partition.name,
+                            ));
+
                     let is_partition_matched =
                         discovered_writer_data.dds_publication_data.partition
                             == subscriber_qos.partition
                             || is_any_name_matched
                             || is_any_received_regex_matched_with_partition_qos
-                            || is_any_local_regex_matched_with_received_partition_qos;
+                            || is_any_local_regex_matched_with_received_partition_qos
+                            || is_default_partition_matched;
 
                     if is_partition_matched {
                         let reader_associated_topic = if let Some(matched_topic) = self
@@ -3413,6 +3439,15 @@ fn get_discovered_writer_incompatible_qos_policy_list(
     }
 
     incompatible_qos_policy_list
+}
+
+/// An empty sequence of partition names is the default partition "": is it matched by a side with these names,
+/// i.e. is one of them the empty name or a pattern that matches the empty name?
+fn matches_default_partition(names: &[String]) -> bool {
+    names.iter().any(|n| {
+        n.is_empty()
+            || Regex::new(&fnmatch_to_regex(n)).is_ok_and(|regex| regex.is_match(""))
+    })
 }
 
 fn fnmatch_to_regex(pattern: &str) -> String {
